@@ -7,6 +7,9 @@ rows = []
 for d in sorted(M):
     meta = json.load(open(os.path.join(V, "seeded", d, "meta.json")))
     e = M[d]
+    if meta.get("retired"):
+        rows.append("| %s | %s | - | retired: %s |" % (d, meta["needs_to_manifest"][:170].replace("|", "/"), meta["retired"][:160]))
+        continue
     if "error" in e:
         rows.append("| %s | %s | - | %s |" % (d, meta["needs_to_manifest"][:150], e["error"]))
         continue
@@ -21,7 +24,9 @@ for d in sorted(M):
                                          (how if own in caught else ("not caught by %s" % ", ".join(missed)))))
 print("| seeded change | needs | caught by | first report / remark |\n|---|---|---|---|")
 print("\n".join(rows))
+R = {d for d in M if json.load(open(os.path.join(V, "seeded", d, "meta.json"))).get("retired")}
+M = {d: e for d, e in M.items() if d not in R}
 n = len(M)
 c = sum(1 for d, e in M.items() if any(r.get("caught") for r in e.values() if isinstance(r, dict)))
 own = sum(1 for d, e in M.items() if isinstance(e.get(d.split("-")[0]), dict) and e[d.split("-")[0]].get("caught"))
-print("\n%d seeded changes, %d caught by the check of their own property, %d caught by some check." % (n, own, c))
+print("\n%d seeded changes (%d more retired), %d caught by the check of their own property, %d caught by some check." % (n, len(R), own, c))
